@@ -46,6 +46,7 @@ type Task struct {
 	prio   int64  // PCT priority
 	nameH  uint32
 	picks  uint32
+	starve int // consecutive scheduling steps this task was ready but not picked
 }
 
 func (t *Task) st() state      { return t.state.Load() }
@@ -64,6 +65,11 @@ type Options struct {
 	Log           bool // keep the event log
 	MaxLog        int
 	RotateMaps    bool // permute canonical map iteration order from the stream
+	// Fairness bounds starvation: a task that was ready but not picked for this
+	// many consecutive steps is scheduled next without consulting the stream
+	// (default 64). Liveness oracles assume a fair scheduler; priority-based
+	// strategies would otherwise starve a task forever.
+	Fairness int
 }
 
 // Sim is one simulated run.
@@ -81,6 +87,7 @@ type Sim struct {
 	Steps     int
 	Branching int // task decisions with >= 2 ready tasks
 	Stalls    int
+	Forced    int    // picks forced by the fairness bound
 	Hash      uint64 // hash of the schedule (task name + ordinal at every branching decision)
 	seq       uint64
 	start     time.Time
@@ -609,6 +616,9 @@ func Run(t *testing.T, st *Stream, opts Options, main func()) *Sim {
 	if opts.MaxLog == 0 {
 		opts.MaxLog = 4000
 	}
+	if opts.Fairness == 0 {
+		opts.Fairness = 64
+	}
 	genCounter++
 	s := &Sim{St: st, opts: opts, gen: genCounter, Hash: 14695981039346656037}
 	s.SpawnCnt = map[string]int{}
@@ -728,8 +738,26 @@ func (s *Sim) loop() {
 		}
 		idx := 0
 		if len(ready) > 1 {
-			idx = s.St.pick(len(ready), "task", func(r *rng) int { return s.strategyPick(r, ready) })
+			starved := -1
+			for i, t := range ready {
+				if t.starve >= s.opts.Fairness && (starved < 0 || t.starve > ready[starved].starve) {
+					starved = i
+				}
+			}
+			if starved >= 0 {
+				idx = starved
+				s.Forced++
+			} else {
+				idx = s.St.pick(len(ready), "task", func(r *rng) int { return s.strategyPick(r, ready) })
+			}
 			s.Branching++
+			for i, t := range ready {
+				if i == idx {
+					t.starve = 0
+				} else {
+					t.starve++
+				}
+			}
 		}
 		t := ready[idx]
 		if len(ready) > 1 {
